@@ -357,6 +357,60 @@ fn run(op: &str, a: &[&str]) -> String {
             let carry = dashu_int::verif_hooks::div_kernel(which, &mut lhs, &rhs);
             format!("ok {} {} {}", carry as u8, words_hex(false, &lhs[n..]), words_hex(false, &lhs[..n]))
         }
+        // scratch memory, hook level: `km.<which> <lhs> <rhs> <lhs length in words>` -> the smallest number of
+        // scratch words with which the kernel completes (found by bisection; the result must equal the one
+        // obtained with the reserved amount) and the amount div::memory_requirement_exact reserves
+        "km" => {
+            let which: u8 = form.parse().expect("which");
+            let m = usz(a[2]);
+            let lhs0 = padded(a[0], m);
+            let (_, rhs) = hex_words(a[1]);
+            let req = dashu_int::verif_hooks::div_scratch_words(which, m, rhs.len());
+            let with = |s: usize| {
+                let mut l = lhs0.clone();
+                catch_unwind(AssertUnwindSafe(|| dashu_int::verif_hooks::div_kernel_scratch(which, &mut l, &rhs, s))).map(|c| (c, l))
+            };
+            match with(req) {
+                Err(_) => cu(|| { let mut l = lhs0.clone(); dashu_int::verif_hooks::div_kernel_scratch(which, &mut l, &rhs, req).h() }),
+                Ok(reference) => {
+                    let (mut lo, mut hi) = (0usize, req);
+                    while lo < hi {
+                        let mid = (lo + hi) / 2;
+                        match with(mid) {
+                            Ok(r) if r == reference => hi = mid,
+                            Ok(_) => return "err result-depends-on-scratch".to_string(),
+                            Err(_) => lo = mid + 1,
+                        }
+                    }
+                    format!("ok {:x} {:x}", hi, req)
+                }
+            }
+        }
+        // scratch memory of mul::add_signed_mul (size dispatch): `mm.0 <a> <b> <len a> <len b>`
+        "mm" => {
+            let (la, lb) = (usz(a[2]), usz(a[3]));
+            let (x, y) = (padded(a[0], la), padded(a[1], lb));
+            let req = dashu_int::verif_hooks::mul_scratch_words(la + lb, la, lb);
+            let with = |s: usize| {
+                let mut c = vec![0 as Word; la + lb];
+                catch_unwind(AssertUnwindSafe(|| dashu_int::verif_hooks::mul_kernel_scratch(&mut c, true, &x, &y, s))).map(|k| (k, c))
+            };
+            match with(req) {
+                Err(_) => cu(|| { let mut c = vec![0 as Word; la + lb]; format!("{}", dashu_int::verif_hooks::mul_kernel_scratch(&mut c, true, &x, &y, req)) }),
+                Ok(reference) => {
+                    let (mut lo, mut hi) = (0usize, req);
+                    while lo < hi {
+                        let mid = (lo + hi) / 2;
+                        match with(mid) {
+                            Ok(r) if r == reference => hi = mid,
+                            Ok(_) => return "err result-depends-on-scratch".to_string(),
+                            Err(_) => lo = mid + 1,
+                        }
+                    }
+                    format!("ok {:x} {:x}", hi, req)
+                }
+            }
+        }
         _ => format!("unknown-op {}", op),
     }
 }
